@@ -112,13 +112,6 @@ type lbPub struct {
 	state      connectivity.State
 }
 
-type lbDial struct {
-	seq  uint64
-	addr string
-	ok   bool
-	conn int
-}
-
 type lbWatcher struct {
 	cfg      lbWatchCfg
 	blocked  bool
